@@ -87,6 +87,14 @@ Theorem optimize_sound :
 Proof. intros M OK MO cancun e e' W H. eapply optimize_sound_all; eauto. Qed.
 Print Assumptions optimize_sound.
 
+(* StaticAssertionException: raised only if the tree contains -- after rewrites that preserve meaning in their context
+   (Blame_equiv), at some argument position (Blame_child) -- an assert / assert_unreachable node that can never
+   complete: its condition always evaluates to 0 or evaluation halts before (Blame_here) *)
+Theorem static_assert_sound :
+  forall (M : Sem), SemOk M -> MemOk M ->
+  forall cancun e, wf e -> optimize cancun e = Err Raised -> Blame M e.
+Proof. intros M OK MO cancun e W H. eapply optimize_raised_all; eauto. Qed.
+Print Assumptions static_assert_sound.
 (* the hypotheses are satisfiable: a concrete state space with a byte memory and big-endian words (MemInst.v) *)
 Example semok_memok_inhabited : SemOk InstSem /\ inhabited (MemOk InstSem).
 Proof. split; [exact InstSemOk | exact (inhabits InstMemOk)]. Qed.
